@@ -12,6 +12,8 @@ import tlegen  # noqa: E402
 
 ID = "C17"
 LEAN_TARGETS = ["PV.Props.C17"]
+# T-D: functions translated from the source by harness/pytrans.py, proved equal to the model (DESIGN section 0)
+EQUIV = {"PV.Equiv.TranslatedDownload": ["fetch_plain_tle_eq", "fetch_spacetrack_eq"]}
 RULE = ("exhaustive: every assignment of {200 with an empty body, 200 with 1-3 entries, 200 with non-TLE text, HTTP error status, "
         "timeout} to the URIs of every shape of <= 3 sources holding <= 5 URIs in total (quick; <= 6 thorough; sources without "
         "URIs included), requests.get interposed; bodies vary with the URI (with / without name lines, CRLF, trailing blank "
